@@ -9,7 +9,7 @@ H = '/verif/vf/pysym/h_c10.py'
 
 def run(rep, tier, only=None):
     snapshot.activate()
-    T = 200 if tier == 'quick' else 1200
+    T = 400 if tier == 'quick' else 1200
     rep.functions += ['Cython/Compiler/Parsing.py: _append_escape_sequence; Cython/Compiler/StringEncoding.py: UnicodeLiteralBuilder, BytesLiteralBuilder '
                       '(append, append_charval, append_uescape, getstring), char_from_escape_sequence']
     rep.bounds += ['literal kinds \'\', u, b, c, f x one escape token: all octal escapes of 1-3 digits; \\x with 0-2 hex digits (all 22 hex characters); '
